@@ -13,6 +13,10 @@ Hashers == 1..NH
 Lens == {0, 1, 17, 63, 64, 65, 130, 256, 300}
 Seeks == {0, 1, 63, 64, 65, 200, 1000}
 Pieces == {0, 1, 31, 63, 64, 65, 129, 200}
+\* The harness binds hashers 1 and 2 to one hash type T, 3 and 4 to types that share some but not all of T's parameters (the other
+\* output size of the same compression function; for Skein: same output size with another state size, same state size with another
+\* output size), and ciphers 1 and 3 to the same key and nonce with different round counts: whatever is shared between such instances
+\* must not be a channel between them.
 Step(e) == depth < DEPTH /\ depth' = depth + 1 /\ hist' = Append(hist, e)
 CApply(i, n) == Step(<<"capply", i, n>>) /\ cpos' = [cpos EXCEPT ![i] = cpos[i] + n] /\ UNCHANGED hlen
 CSeek(i, p) == Step(<<"cseek", i, p>>) /\ cpos' = [cpos EXCEPT ![i] = p] /\ UNCHANGED hlen
@@ -22,7 +26,7 @@ HClone(j, k) == hlen[j] >= 0 /\ k # j /\ Step(<<"hclone", j, k>>) /\ hlen' = [hl
 HReset(j) == hlen[j] >= 0 /\ Step(<<"hreset", j, 0>>) /\ hlen' = [hlen EXCEPT ![j] = 0] /\ UNCHANGED cpos
 HFinReset(j) == hlen[j] >= 0 /\ Step(<<"hfinreset", j, 0>>) /\ hlen' = [hlen EXCEPT ![j] = 0] /\ UNCHANGED cpos
 Init == /\ cpos = [i \in Ciphers |-> 0]
-        /\ hlen = [j \in Hashers |-> IF j <= 2 THEN 0 ELSE -1]
+        /\ hlen = [j \in Hashers |-> IF j <= 4 THEN 0 ELSE -1]   \* 1, 2: one type; 3, 4: its relatives (see below); 5: free slot
         /\ hist = <<>> /\ depth = 0
 Next == \/ \E i \in Ciphers : (\E n \in Lens : CApply(i, n)) \/ (\E p \in Seeks : CSeek(i, p)) \/ CPos(i)
         \/ \E j \in Hashers : (\E n \in Pieces : HUpd(j, n)) \/ (\E k \in Hashers : HClone(j, k)) \/ HReset(j) \/ HFinReset(j)
